@@ -254,6 +254,36 @@ theorem frames_authentic_any_reader {K H C : Type} (A : Aead K (Aad H) C) (hfree
     hh = hh0 ∧ fs = writeFrames A k hh0 chunks ∧ tail = Tail.clean ∧ ps = chunks :=
   frames_authentic A hfree k hh0 chunks hh fs tail ps hauth (readFramesVia_accept A k hh probe hprobe fs 0 tail ps hacc)
 
+/-- `zero_length_frame_rejected` (frame-level INSERTION): `ctLen` measures a ciphertext, every sealed ciphertext
+carries the AEAD tag (`hseal`: at least `tagLen > 0` bytes — the writer never emits less). A frame whose
+ciphertext is shorter than the tag — declared length 0, 1 … tagLen−1 — cannot open under any key or additional
+data, so a stream that contains such a frame ANYWHERE (after the header, between frames, before the final frame,
+of any frame type) is refused, through every contract-abiding reader: every frame, whatever its length, goes
+through the AEAD before anything is accepted (`Tie.frame_no_accept_before_open`). -/
+theorem zero_length_frame_rejected {K H C : Type} (A : Aead K (Aad H) C) (ctLen : C → Nat) (tagLen : Nat)
+    (hseal : ∀ k a p, tagLen ≤ ctLen (A.sealIt k a p))
+    (k : K) (hh : H) (probe : Probe) (hprobe : probe.Valid)
+    (pre post : List (Frame C)) (f : Frame C) (hshort : ctLen f.ct < tagLen) (tail : Tail) :
+    (∀ a, A.openIt k a f.ct = none) ∧
+    ∃ e, readFramesVia A k hh probe 0 (pre ++ f :: post) tail = .error e := by
+  have hnone : ∀ a, A.openIt k a f.ct = none := by
+    intro a
+    cases ho : A.openIt k a f.ct with
+    | none => rfl
+    | some p =>
+      have := (A.openIt_iff k a f.ct p).mp ho
+      have := hseal k a p
+      rw [← ‹f.ct = A.sealIt k a p›] at this
+      omega
+  refine ⟨hnone, ?_⟩
+  cases hr : readFramesVia A k hh probe 0 (pre ++ f :: post) tail with
+  | error e => exact ⟨e, rfl⟩
+  | ok ps =>
+    exfalso
+    obtain ⟨a, p, ho⟩ := readFramesVia_all_open A k hh probe hprobe _ 0 tail ps hr f (by simp)
+    rw [hnone a] at ho
+    cases ho
+
 /-! ## (a) `Load`: verification of ALL fragments precedes every write -/
 
 /-- `verify_before_write`: in the model of `Load` every `BatchOperation` comes after the successful
@@ -803,6 +833,42 @@ def demoManLowered : Man Bytes :=
 example : demoManLowered.validate demoEnv.emptySha = true := by decide
 example : (load demoEnv demoManLowered demoDir).err = some .verify ∧
     ((load demoEnv demoManLowered demoDir).trace.filter Ev.isBatch).length = 0 := by decide
+
+/-- symbolic AEAD with byte lengths: `none` is the EMPTY ciphertext (declared length 0), a sealing is 16 tag bytes
+longer than its plaintext — the hypotheses of `zero_length_frame_rejected` are satisfiable -/
+def lenAead : Aead Nat (Aad Nat) (Option (Nat × Aad Nat × Bytes)) where
+  sealIt k a p := some (k, a, p)
+  openIt k a c := match c with
+    | none => none
+    | some t => if t.1 = k ∧ t.2.1 = a then some t.2.2 else none
+  openIt_iff := by
+    intro k a c p
+    cases c with
+    | none => simp
+    | some t =>
+      obtain ⟨t1, t2, t3⟩ := t
+      simp only [Option.some.injEq, Prod.mk.injEq]
+      constructor
+      · intro h
+        split at h
+        · rename_i hc; injection h with h; exact ⟨hc.1, hc.2, h⟩
+        · cases h
+      · rintro ⟨h1, h2, h3⟩
+        subst h1 h2 h3
+        simp
+
+def lenOf : Option (Nat × Aad Nat × Bytes) → Nat
+  | none => 0
+  | some t => 16 + t.2.2.length
+
+example : ∀ k a p, 16 ≤ lenOf (lenAead.sealIt k a p) := by intro k a p; simp [lenAead, lenOf]
+-- the five bytes `00 00 00 00 00` (a data frame header declaring an empty ciphertext) spliced in before the final frame
+example : readFramesVia lenAead 1 7 directProbe 0
+    (match writeFrames lenAead 1 7 [[1], [2]] with | a :: b :: t => a :: b :: ⟨frameData, none⟩ :: t | l => l) .clean
+    = .error .decrypt := by rfl
+example : readFramesVia lenAead 1 7 directProbe 0 (⟨frameData, none⟩ :: writeFrames lenAead 1 7 [[1], [2]]) .clean
+    = .error .decrypt := by rfl
+example : readFramesVia lenAead 1 7 directProbe 0 (writeFrames lenAead 1 7 [[1], [2]]) .clean = .ok [[1], [2]] := by rfl
 
 -- the per-graph preflight on ids that are not decimals: graph `h` has an edge to a node that exists in graph `g` only
 def idEnv : LoadEnv Bytes IdRec (List Str) where
